@@ -48,10 +48,11 @@ DOC_DOMAIN = {   # documented minima (generate docstring)
 
 def method_run(ctx, name, no_inline=()):
     fi = ctx.repo.func(GEN_MOD, f"ScenarioGenerator.{name}")
-    ip = Interp(ctx.repo, ctx.types, param_types={fi.params[0]: "ScenarioGenerator"},
+    ip = Interp(ctx.repo, ctx.types, param_types={fi.rparams[0]: "ScenarioGenerator"}
+                if fi.flavour != "staticmethod" else {},
                 no_inline=tuple(f"{GEN_MOD}:ScenarioGenerator.{n}" for n in no_inline))
     s = ip.run(fi)
-    cn = Canon(ip, ctx.layout, names={("param", fi.params[0]): "G"})
+    cn = Canon(ip, ctx.layout, names={("param", fi.rparams[0]): "G"})
     cn.written = None
     return fi, ip, s, cn
 
@@ -136,7 +137,7 @@ def check_division(ctx, chk):
         n for n in gcls.methods if n != "generate"))
     H = head_guard(s_, ip_, cn_)
     conjuncts = list(H[1]) if H[0] == "and" else [H]
-    for p_ in gen.params[1:]:
+    for p_ in gen.rparams[1:]:
         mine = [g for g in conjuncts if any(a.endswith(f"<{p_}") for a in f_atoms(g))]
         Hp = f_and(mine) if mine else ("true",)
         for c_ in (2, 1, 0):
@@ -163,7 +164,7 @@ def check_division(ctx, chk):
                     and n.func.attr in gcls.methods:
                 callee = gcls.methods[n.func.attr]
                 ce = envs.setdefault(callee.name, {})
-                ps = callee.params[1:]
+                ps = callee.rparams[1:]
                 for i, a in enumerate(n.args):
                     if i < len(ps):
                         v = iv.evaluate(a, env, consts)
@@ -306,7 +307,7 @@ def self_calls(m):
     """calls `self.<method>(...)` in method m: [(call node, method name, {callee param: arg text})]
     (callee parameter names are resolved by the caller of this function)"""
     out = []
-    selfn = m.params[0] if m.params else "self"
+    selfn = m.rparams[0] if m.params else "self"
     for n in ast.walk(m.node):
         if isinstance(n, ast.Call) and isinstance(n.func, ast.Attribute) \
                 and isinstance(n.func.value, ast.Name) and n.func.value.id == selfn:
@@ -316,7 +317,7 @@ def self_calls(m):
 
 def arg_map(call, callee):
     """{callee parameter name: source text of the argument} for a `self.m(...)` call"""
-    ps = callee.params[1:]
+    ps = callee.rparams[1:]
     out = {}
     for i, a in enumerate(call.args):
         if i < len(ps) and not isinstance(a, ast.Starred):
@@ -481,7 +482,7 @@ def probs_helper(ctx, meth, public):
         am = arg_map(call, callee)
         hit = [p_ for p_, a_ in am.items() if a_ == spec]
         if len(hit) == 1:
-            rest = [p_ for p_ in callee.params[1:] if p_ != hit[0]]
+            rest = [p_ for p_ in callee.rparams[1:] if p_ != hit[0]]
             return callee, hit[0], (rest[0] if len(rest) == 1 else None)
     return None, None, None
 
@@ -545,8 +546,8 @@ def check_probs(ctx, chk):
     from .loaderfacts import extract_guards, closed
     gs = extract_guards(ip, cn, s.events)
     guards = [(closed(g.F, g.loops), g) for g in gs]
-    P = spec_p if ph is not None else fi.params[2]
-    N = count_p if ph is not None and count_p else fi.params[1]
+    P = spec_p if ph is not None else fi.rparams[2]
+    N = count_p if ph is not None and count_p else fi.rparams[1]
     want_float = f_and([A(f"0.0<{P}"), f_not(A(f"1.0<{P}"))])
     want_list = closed(f_and([A(f"0.0<each({P})"), f_not(A(f"1.0<each({P})"))]), [P])
     okf = any(f_equiv(F, want_float) for F, _ in guards)
@@ -639,7 +640,7 @@ def check_counts(ctx, chk):
         fi, ip, s, cn = method_run(ctx, meth)
         st = [ev for ev in s.events if ev.kind == "store" and ev.data.get("name") == attr]
         ok = len(st) == 1 and st[0].data["value"][0] == "comp" and \
-            cn.show(st[0].data["value"][3][0][1]) == f"range({fi.params[1]})" and \
+            cn.show(st[0].data["value"][3][0][1]) == f"range({fi.rparams[1]})" and \
             not st[0].data["value"][3][0][2]
         # element is an f-string of the loop variable => distinct names
         distinct = False
@@ -667,7 +668,7 @@ def check_counts(ctx, chk):
     # subnets partition
     fi, ip, s, cn = method_run(ctx, "_generate_subnets")
     st = [ev for ev in s.events if ev.kind == "store" and ev.data.get("name") == "subnets"]
-    N = fi.params[1]
+    N = fi.rparams[1]
     ok = False
     detail = "no store to self.subnets"
     if len(st) == 1:
@@ -823,7 +824,7 @@ def check_hosts(ctx, chk):
                       + str([cn.show(t)[:120] for _, t in s.returns]), fi.module.path)
     else:
         ks, vs, loops, cond = mp
-        x, y = sorted(["each(G.os)", fi.params[1]])
+        x, y = sorted(["each(G.os)", fi.rparams[1]])
         ok = ks == "each(G.os)" and vs == f"{x}=={y}" and loops == ["G.os"] \
             and cond == ("true",)
         chk.ob("C15.hosts", "_convert_to_os_map: os_map[name] = (name == os) for every declared OS "
@@ -836,14 +837,17 @@ def check_hosts(ctx, chk):
     if ok:
         loops = [cn.show(ip.loops[c[1]]["iter"]) for c in st[0].pc if c[0] == "inloop"]
         cond = [c for c in st[0].pc if c[0] not in ("inloop", "fact")]
-        ok = loops == [f"range(max(np.random.poisson({fi.params[2]}), 1))"] and not cond
+        import re as _re
+        # (whichever parameter carries the Poisson mean: the helper may be a static method)
+        ok = len(loops) == 1 and not cond and _re.fullmatch(
+            r"range\(max\(np\.random\.poisson\(\w+\), 1\)\)", loops[0]) is not None
         detail = f"loops {loops}, condition {f_show(cn.conj(tuple(cond)))}"
     chk.ob("C15.hosts", "_dirichlet_process: at least one option set (loop over "
            "range(max(poisson, 1)) sets an entry unconditionally)", ok, detail, fi.module.path)
     check_permutations(ctx, chk)
     fi, ip, s, cn = method_run(ctx, "_get_host_value")
     txt = [cn.show(t) for _, t in s.returns]
-    A_ = fi.params[1]
+    A_ = fi.rparams[1]
     chk.ob("C15.hosts", "_get_host_value = sensitive_hosts.get(address, base_host_value)",
            txt in ([f"G.sensitive_hosts.get({A_}, G.base_host_value)"],
                    [f"({A_} in G.sensitive_hosts ? G.sensitive_hosts[{A_}] : G.base_host_value)"]),
@@ -912,7 +916,7 @@ def check_permutations(ctx, chk):
 def check_firewall(ctx, chk):
     fi, ip, s, cn = method_run(ctx, "_generate_firewall",
                                no_inline=("_host_is_vulnerable_to_exploit",))
-    R = fi.params[1]
+    R = fi.rparams[1]
     N = "range(len(G.subnets))"
     SRC, DST = f"each({N})", f"each({N})'"
     stores = [ev for ev in s.events if ev.kind == "store" and ev.data["target"] == "sub"
@@ -1018,7 +1022,7 @@ def _drop_atoms(F, keep):
 # ------------------------------------------------------------------------------ (h)
 def check_sensitive(ctx, chk):
     fi, ip, s, cn = method_run(ctx, "_generate_sensitive_hosts")
-    rs, ru, rg = fi.params[1], fi.params[2], fi.params[3]
+    rs, ru, rg = fi.rparams[1], fi.rparams[2], fi.rparams[3]
     stores = [ev for ev in s.events if ev.kind == "store" and ev.data["target"] == "sub"]
     got = [(cn.show(ev.data["idx"]), cn.show(ev.data["value"]),
             f_show(cn.conj(tuple(c for c in ev.pc if c[0] != "fact")))) for ev in stores]
@@ -1085,14 +1089,14 @@ def check_construct(ctx, chk):
         callee = ctx.repo.func(GEN_MOD, "ScenarioGenerator._generate_sensitive_hosts")
         args = [cn.show(a) for a in calls[0].data["args"]][1:]
         kws = {k: cn.show(v) for k, v in calls[0].data.get("kwargs", ())}
-        bound = dict(zip(callee.params[1:], args))
+        bound = dict(zip(callee.rparams[1:], args))
         bound.update(kws)
         # roles are positional in the helper (C15.sensitive: its 1st parameter is the value of the
         # sensitive-subnet host, its 2nd the user host's value, its 3rd the random-goal switch);
         # generate's own parameter names are the public ones
         roles = ["r_sensitive", "r_user", "random_goal"]
         okb = len(callee.params) >= 4 and all(
-            bound.get(p_) == r_ for p_, r_ in zip(callee.params[1:4], roles))
+            bound.get(p_) == r_ for p_, r_ in zip(callee.rparams[1:4], roles))
         chk.ob("C15.construct", "generate passes r_sensitive, r_user, random_goal to the helper's "
                "parameters in that role order", okb, str(bound), fi.module.path)
 
